@@ -23,7 +23,7 @@ import prims_common as pc
 COMBOS = [("mep", "std"), ("mep", "alps"), ("ga", "std"), ("ga", "alps"), ("de", "de"), ("de", "dealps")]
 FIELDS = ["kind", "strat", "mode", "seed", "individuals", "min_individuals", "layers", "tournament", "mate_zone",
           "elitism", "age_gap", "p_same", "p_cross", "p_mutation", "brood", "generations", "cache", "eval",
-          "evalmod", "shake_every"]
+          "evalmod", "shake_every", "max_stuck"]
 
 
 def p3(x):
@@ -32,7 +32,7 @@ def p3(x):
 
 
 def case_line(c):
-    return "run " + " ".join(str(c[f]) for f in FIELDS)
+    return "run " + " ".join(str(c.get(f, 4294967295) if f == "max_stuck" else c[f]) for f in FIELDS)
 
 
 def envm(c):
@@ -65,6 +65,7 @@ def gen_config(rng, mode=None, combo=None, big=False):
         "p_mutation": rng.choice([0, 0.04, 0.5, 1]), "brood": rng.choice([1, 1, 2, 3, 4]),
         "generations": gens, "cache": rng.choice([0, 1]), "eval": rng.choice(["h", "h", "v", "r"]),
         "evalmod": rng.choice([1, 2, 3, 7, 1000]), "shake_every": rng.choice([0, 0, 0, 2, 3]),
+        "max_stuck": rng.choice([4294967295, 4294967295, 0, 1, 2, 3]),
     }
     if mode == "search":
         # search::run tunes the environment itself and runs twice; keep it small
